@@ -200,6 +200,11 @@ impl Prop for PNum {
             for _ in 0..nf {
                 files.push(json!({"v": rng.range(-2, 6)}));
             }
+            // now and then a timestamp from before 1970 (the injected clock stands at 2 000 000 000 s): an age like any other
+            if rng.chance(1, 4) {
+                let before_epoch: i64 = if prim.ends_with("time") { 23150 + rng.below(4000) as i64 } else { 33_340_000 + rng.below(1_000_000) as i64 };
+                files.push(json!({"v": before_epoch}));
+            }
             let fv = files[rng.below(files.len())]["v"].as_i64().unwrap();
             n = json!({"v": (fv + rng.range(-1, 1)).max(0)});
         } else {
